@@ -13,7 +13,7 @@ open PP PP.Sexp PP.Settings
   parseSel  ::= nocache | cache
   cmd    ::= enter | exit | (setws s) | (setkw s) | (lit n) | (verbose b) | (packrat size force)
            | (lr cap force) | (disable) | (reset) | (diag name b) | (allwarn) | (compat name b)
-           | (compatassign name b) | (new) | (copy i) | (exprws i s b)          size/cap ::= None | int
+           | (compatassign name b) | (new) | (copy i) | (exprws i s b) | (wrap i)          size/cap ::= None | int
   err    ::= ok | RuntimeError | NotImplementedError | ValueError | AttributeError
 
   `settings-canon "<chars>"` ↦ `"<canonical set(chars)>"`
@@ -90,6 +90,7 @@ def cmd? : Sexp → Option Cmd
   | .list [.atom "compatassign", .str n, b] => do pure (.op (.compatAssign n (← b.bool?)))
   | .list [.atom "new"] => some (.op .newExpr)
   | .list [.atom "copy", i] => do pure (.op (.copyExpr (← i.nat?)))
+  | .list [.atom "wrap", i] => do pure (.op (.wrapExpr (← i.nat?)))
   | .list [.atom "exprws", i, .str s, b] => do pure (.op (.exprSetWs (← i.nat?) s (← b.bool?)))
   | _ => none
 
